@@ -181,6 +181,17 @@ def boundary_scenarios(tier, seed):
     return out
 
 
+def long_clash_scenarios(tier):
+    """two (three) unaddressed gear that draw the same random address round after round -- far more often than chance
+    allows, but a draw stream like any other -- and different ones in the end: the sequence goes on until they do"""
+    out = []
+    for n, rounds, v in ((2, 258, 0x123456), (3, 300, 0xFFFFFF)) if tier == "thorough" else ((2, 258, 0x123456),):
+        draws = [[v] * n for _ in range(rounds)] + [[0x000100 + 77 * k for k in range(n)]]
+        out.append({"shorts": [255] * n, "storeOK": [True] * n, "permitted": list(range(64)), "readdress": False,
+                    "dryrun": False, "draws": draws, "maxrounds": rounds + 1, "src": "long-clash:%d" % rounds})
+    return out
+
+
 def run(tier, seed, replay=None):
     out = core.Outcome("C07", tier, seed)
     out.is_replay = replay is not None
@@ -223,6 +234,7 @@ def run(tier, seed, replay=None):
             npy = 300 if tier == "quick" else 12000
             scen += [py_scenario(seed, k) for k in range(npy)]
             scen += boundary_scenarios(tier, seed)
+            scen += long_clash_scenarios(tier)
         else:
             scen = [replay["case"]["scenario"]]
         recs = core.pmap(run_scenario, scen, chunksize=8)
